@@ -116,6 +116,15 @@ const Changelog = `- semver: "1.1.0-1"
     - note: "entry without packager"
 `
 
+// BigChangelog renders 240 changelog entries (about 40 KB as Debian changelog text, about 2 KB gzipped).
+func BigChangelog() string {
+	var b strings.Builder
+	for i := 240; i >= 1; i-- {
+		fmt.Fprintf(&b, "- semver: \"1.%d.0\"\n  date: \"2009-%02d-%02dT10:00:00Z\"\n  packager: \"Jane Roe <jane@example.com>\"\n  changes:\n    - note: \"release note number %d with some repetitive explanatory text\"\n    - note: \"another repetitive line for entry %d\"\n", i, 1+i%12, 1+i%28, i, i)
+	}
+	return b.String()
+}
+
 // T0 is the base instant; every fixture mtime lies in 2001..2005.
 var T0 = time.Date(2001, 2, 3, 4, 5, 6, 0, time.UTC)
 
@@ -182,6 +191,8 @@ func Spec(big int) []Node {
 		{Rel: "frac/sub/g.txt", Kind: "file", Mode: 0o644, Data: text("g", 60)},
 		{Rel: "frac/l", Kind: "symlink", Target: "f75.txt"},
 	}
+	// a long changelog: its text is many times larger than its gzip form
+	ns = append(ns, Node{Rel: "changelog-big.yaml", Kind: "file", Mode: 0o644, Data: []byte(BigChangelog())})
 	// a root file system image: packaged as a tree at "/", most of its directories belong to the distribution's
 	// filesystem package
 	for _, n := range []Node{
